@@ -619,6 +619,19 @@ func (p *Prog) inlineUnknownHelpers() error {
 				for _, op := range in.Operands(ops[:0]) {
 					if g, ok := (*op).(*ssa.Function); ok && fn != g {
 						referred[g] = true
+						// a method value or method expression goes through a wrapper go/ssa makes: what the
+						// wrapper calls is what is referred to
+						if g.Synthetic != "" {
+							for _, wb := range g.Blocks {
+								for _, wi := range wb.Instrs {
+									if ci, ok := wi.(ssa.CallInstruction); ok {
+										if t := ci.Common().StaticCallee(); t != nil {
+											referred[t] = true
+										}
+									}
+								}
+							}
+						}
 					}
 				}
 			}
